@@ -122,6 +122,7 @@ func checkC05(c *Ctx, r *Report) {
 	}
 	// answers to tracked requests (pr.req.resch): followed by delete(pendingRequests, pr), and every delete preceded by an answer
 	nTracked := 0
+	trackedIn := map[string]int{}
 	for _, k := range []string{loopK, dispK} {
 		f := r2.need(k)
 		if f == nil {
@@ -133,6 +134,7 @@ func checkC05(c *Ctx, r *Report) {
 				continue // answer to the request just received (handled above)
 			}
 			nTracked++
+			trackedIn[k]++
 			base := strings.TrimSuffix(p, ".req.resch")
 			delSame := func(in ssa.Instruction) bool {
 				return isPendDelete(in) && pathOf(in.(*ssa.Call).Call.Args[1]) == base
@@ -152,8 +154,8 @@ func checkC05(c *Ctx, r *Report) {
 			r2.mustPass(f, fnKey(f)+": a tracked request is removed only after it was answered", q, 1)
 		}
 	}
-	if nTracked < 3 {
-		r2.Fail("answers to tracked requests", token.NoPos, "expected three sites (dial success, last-one check, all-failed)", "")
+	if trackedIn[loopK] < 1 || trackedIn[dispK] < 1 {
+		r2.Fail("answers to tracked requests", token.NoPos, "expected an answer site in the worker loop (dial success) and in dispatchError (last-one check / all-failed)", "")
 	}
 	// the response channel is 1-buffered (the worker never blocks answering a caller that left)
 	if f := r2.need("(*" + swarmP + ".activeDial).dial"); f != nil {
